@@ -728,4 +728,21 @@ def transform (P : PrimeSet) (inverse : Bool) (n : Nat) (data : Array Nat) : Out
   | .panic c, _, _, _ => .panic c
   | _, _, _, _ => .panic "assert"
 
+/-! ### the product pipeline with the real transforms -/
+
+/-- `ntt_ref` / `intt_ref` on lane `k` with the tables of size `n` (as `transform` runs them) -/
+def realNtt (P : PrimeSet) (n k : Nat) (v : List Nat) : List Nat :=
+  match nttTableK P k n with
+  | .ok t => nttK t v
+  | _ => v
+def realIntt (P : PrimeSet) (n k : Nat) (v : List Nat) : List Nat :=
+  match inttTableK P k n with
+  | .ok t => inttK t v
+  | _ => v
+
+/-- `svp_prepare(p)`, `vec_znx_dft_apply(x)`, `svp_apply_dft_to_dft`, `vec_znx_idft_apply` on one limb of
+ring degree `n`, NTT120 back end: everything executable -/
+def svpPipeline (P : PrimeSet) (n : Nat) (p x : Poly) : List Int :=
+  nttPipeline P (bbcH P) (realNtt P n) (realIntt P n) p x
+
 end Ntt120
